@@ -13,6 +13,8 @@ SPEC = {
                 # the wiring that makes a link change reach the task at all: BuildTasks subscribes every interface task (monitors
                 # included) to ITS interface through the watcher's real notify path
                 {"pkg": "internal/corerad", "test": "TestVerifC20", "newgo": True, "timeout": 600, "corr_module": "Corr.C20", "env": {"VERIF_C20_SECTION": "build"}},
+                # the policy applied to the first transmission of a connection (the initial RA)
+                {"pkg": "internal/corerad", "test": "TestVerifC10Initial", "newgo": True, "timeout": 300, "arch386": []},
         # the real dialNDP / checkInterface / lookupInterface on a veth pair (root only; tagged unavailable otherwise)
         {"pkg": "internal/system", "test": "TestVerifRealOS", "newgo": True, "timeout": 300},
     ],
